@@ -1306,7 +1306,7 @@ impl fmt::Display for Type2<'_> {
       Type2::UintValue { value, .. } => write!(f, "{}", value),
       // `{:?}` keeps a fraction or exponent (1.0, 1e16), so the text stays a float literal
       Type2::FloatValue { value, .. } => write!(f, "{:?}", value),
-      Type2::TextValue { value, .. } => write!(f, "\"{}\"", value),
+      Type2::TextValue { value, .. } => crate::token::write_text_literal(f, value),
       Type2::UTF8ByteString { value, .. } => write!(
         f,
         "'{}'",
